@@ -1273,3 +1273,518 @@ Example ex_ads_only_once_sequentially :
   dm_outs s = [[Some 1]; [Some 2; Some 3]] /\ dm_qs s = [[4]; []] /\
   dm_last_ad_issued s 0 = 2 /\ dm_last_ad_consumed s 0 = 1 /\ dm_heap_chain s 1 = [].
 Proof. vm_compute. repeat split. Qed.
+
+(* ------------------------------------------------------------------------------------------------------ *)
+(* 6  every index is a shepherd; the assert of qdqueue_adheap_push holds ([PCrash 0] unreachable)           *)
+
+Lemma map_set_nth_same : forall (A B : Type) (g : A -> B) (l : list A) (i : nat) (x : A),
+  (forall y, nth_error l i = Some y -> g x = g y) -> map g (set_nth l i x) = map g l.
+Proof.
+  intros A B g l. induction l as [|a l IH]; intros i x H; [destruct i; reflexivity|].
+  destruct i as [|i]; cbn [set_nth map].
+  - f_equal. apply H. reflexivity.
+  - f_equal. apply IH. intros y Hy. apply H. exact Hy.
+Qed.
+
+Lemma shep_upd : forall hp i f, (forall e, e_shep (f e) = e_shep e) -> map e_shep (hp_upd hp i f) = map e_shep hp.
+Proof.
+  intros hp i f H. unfold hp_upd. apply map_set_nth_same. intros y Hy. rewrite H. unfold hget.
+  rewrite (nth_error_nth _ _ _ Hy). reflexivity.
+Qed.
+Lemma shep_set_prev : forall hp i v, map e_shep (hp_upd hp i (set_prev v)) = map e_shep hp.
+Proof. intros. apply shep_upd. reflexivity. Qed.
+Lemma shep_set_next : forall hp i v, map e_shep (hp_upd hp i (set_next v)) = map e_shep hp.
+Proof. intros. apply shep_upd. reflexivity. Qed.
+Lemma shep_set_gen : forall hp i v, map e_shep (hp_upd hp i (set_gen v)) = map e_shep hp.
+Proof. intros. apply shep_upd. reflexivity. Qed.
+Lemma shep_set_inheap : forall hp i v, map e_shep (hp_upd hp i (set_inheap v)) = map e_shep hp.
+Proof. intros. apply shep_upd. reflexivity. Qed.
+
+(* the critical sections touch neither the lock word, nor last_consumed, nor the (immutable) ad.shep fields *)
+Lemma pop_crit_fields : forall q,
+  q_lock (fst (pop_crit q)) = q_lock q /\ q_lc (fst (pop_crit q)) = q_lc q /\
+  map e_shep (q_heap (fst (pop_crit q))) = map e_shep (q_heap q).
+Proof.
+  intros q. unfold pop_crit. destruct (q_first q) as [f|]; [|auto]. cbn [fst set_ads q_lock q_lc q_heap].
+  split; [reflexivity|]. split; [reflexivity|]. rewrite shep_set_inheap. destruct (e_next _); [apply shep_set_prev|reflexivity].
+Qed.
+
+Lemma push_crit_fields : forall q i gen q', push_crit q i gen = Some q' ->
+  q_lock q' = q_lock q /\ q_lc q' = q_lc q /\ map e_shep (q_heap q') = map e_shep (q_heap q).
+Proof.
+  intros q i gen q' H. unfold push_crit in H. cbv zeta in H.
+  assert (E1 : map e_shep (if gen =? 0 then q_heap q else hp_upd (q_heap q) i (set_gen gen)) = map e_shep (q_heap q))
+    by (destruct (gen =? 0); [reflexivity|apply shep_set_gen]).
+  destruct (_ || _); [|inv H; auto].
+  destruct (e_inheap _); [inv H; cbn [set_ads q_lock q_lc q_heap]; auto|].
+  destruct (q_first q) as [f|].
+  - destruct (i <? f)%nat; [inv H; cbn [set_ads q_lock q_lc q_heap]; rewrite !shep_set_prev, shep_set_next, shep_set_inheap; auto|].
+    destruct (f <? i)%nat; [|inv H; cbn [set_ads q_lock q_lc q_heap]; rewrite shep_set_inheap; auto].
+    destruct (scan_down _ _) as [j|]; [|discriminate H]. inv H. cbn [set_ads q_lock q_lc q_heap].
+    split; [reflexivity|]. split; [reflexivity|].
+    match goal with |- map e_shep (match ?c with Some _ => _ | None => _ end) = _ => destruct c end;
+      rewrite ?shep_set_prev, ?shep_set_next, ?shep_set_prev, ?shep_set_next, ?shep_set_inheap; exact E1.
+  - inv H. cbn [set_ads q_lock q_lc q_heap]. rewrite shep_set_next, shep_set_prev, shep_set_inheap. auto.
+Qed.
+
+Definition nbrs_ok (ns : nat) (nbrs : list (list nat)) : Prop :=
+  forall i nb, In nb (nth i nbrs []) -> (nb < ns)%nat.
+Definition hints_lc_ok (ns : nat) (hn : hints) : Prop :=
+  forall sh j, In sh hn -> h_lc sh = Some j -> (j < ns)%nat.
+
+Definition cont_rng (ns : nat) (c : pcont) : Prop :=
+  match c with KEnqNbr qi _ _ => (qi < ns)%nat | KDeqRepush _ _ => True end.
+(* st = true: strict (last_consumed values are shepherds, the assert of push holds); st = false: what holds for
+   arbitrary hints *)
+Definition pc_rng (st : bool) (ns : nat) (p : pc) : Prop :=
+  match p with
+  | PCrash O => st = false
+  | PEnqEmpty qi _ | PEnqPut qi _ _ | PEnqLdIssued qi | PEnqLdConsumed qi _ | PEnqIncr qi => (qi < ns)%nat
+  | PPushLock h _ _ c | PPushCrit h _ _ c | PPushUnlock h c => (h < ns)%nat /\ cont_rng ns c
+  | PDeqStRet tgt _ => (tgt < ns)%nat
+  | _ => True
+  end.
+Definition tk_rng (st : bool) (ns : nat) (k : dtask) : Prop :=
+  (k_me k < ns)%nat /\ pc_rng st ns (k_pc k) /\ forall th v, In (DEnqThere th v) (k_ops k) -> (th < ns)%nat.
+
+Definition names_ok (ns : nat) (alls : list (list nat)) (subs : list subq) : Prop :=
+  forall h, (h < ns)%nat -> map e_shep (q_heap (nth h subs dflt_sub)) = map (elem_shep alls h) (seq 0 ns).
+Definition lc_ok (ns : nat) (subs : list subq) : Prop :=
+  forall h j, q_lc (nth h subs dflt_sub) = Some j -> (j < ns)%nat.
+
+Definition rng (st : bool) (ns : nat) (alls nbrs : list (list nat)) (s : dstate) : Prop :=
+  dm_S s = ns /\ dm_alls s = alls /\ dm_nbrs s = nbrs /\ length (dm_qs s) = ns /\ length (dm_subs s) = ns /\
+  names_ok ns alls (dm_subs s) /\ (st = true -> lc_ok ns (dm_subs s)) /\ forall k, In k (dm_tasks s) -> tk_rng st ns k.
+
+Lemma find_shep_none : forall hp shep n, find_shep hp shep n = None -> ~ In shep (map e_shep hp).
+Proof.
+  induction hp as [|e hp IH]; intros shep n H Hin; [destruct Hin|]. cbn [find_shep map] in *.
+  destruct (Nat.eqb_spec (e_shep e) shep) as [E|Hne]; [discriminate H|].
+  destruct Hin as [E|Hin]; [contradiction|]. eapply IH; eassumption.
+Qed.
+
+Lemma in_firstn_nth : forall (l : list nat) n x d, In x (firstn n l) -> exists k, (k < n)%nat /\ nth k l d = x.
+Proof.
+  induction l as [|a l IH]; intros n x d H; [destruct n; destruct H|].
+  destruct n as [|n]; [destruct H|]. cbn [firstn] in H. destruct H as [<-|H].
+  - exists O. split; [lia|reflexivity].
+  - destruct (IH n x d H) as [k [Hk E]]. exists (S k). split; [lia|exact E].
+Qed.
+
+Lemma rng_enter_push : forall st ns alls nbrs s h shep gen c,
+  (st = true -> alls_cover ns alls) -> rng st ns alls nbrs s -> (h < ns)%nat -> (st = true -> (shep < ns)%nat) -> cont_rng ns c ->
+  pc_rng st ns (enter_push s h shep gen c).
+Proof.
+  intros st ns alls nbrs s h shep gen c Hcov [_ [_ [_ [_ [_ [Hn _]]]]]] Hh Hs Hc. unfold enter_push.
+  destruct (find_shep _ _ _) as [i|] eqn:E; cbn [pc_rng]; [split; assumption|].
+  destruct st; [|reflexivity]. specialize (Hs eq_refl). specialize (Hcov eq_refl). exfalso.
+  apply find_shep_none in E. apply E. unfold getq. rewrite (Hn h Hh).
+  destruct (Nat.eq_dec shep h) as [->|Hne].
+  - change h with (elem_shep alls h O) at 1. apply in_map, in_seq. lia.
+  - destruct (in_firstn_nth _ _ _ O (Hcov h shep Hh Hs Hne)) as [k [Hk Ek]].
+    rewrite <- Ek. change (nth k (nth h alls []) O) with (elem_shep alls h (S k)). apply in_map, in_seq. lia.
+Qed.
+
+Lemma rng_enq_nbr : forall st ns alls nbrs s qi gen idx,
+  (st = true -> alls_cover ns alls) -> nbrs_ok ns nbrs -> rng st ns alls nbrs s -> (qi < ns)%nat -> pc_rng st ns (enq_nbr s qi gen idx).
+Proof.
+  intros st ns alls nbrs s qi gen idx Hcov Hnb Hr Hq. unfold enq_nbr.
+  destruct (nth_error _ _) as [nb|] eqn:E; [|exact I].
+  eapply rng_enter_push; try eassumption; [|intros _; exact Hq]. apply nth_error_In in E.
+  destruct Hr as [_ [_ [En _]]]. rewrite En in E. eapply Hnb, E.
+Qed.
+
+Lemma rng_step : forall st ns alls nbrs s t s' r,
+  (st = true -> alls_cover ns alls) -> nbrs_ok ns nbrs -> rng st ns alls nbrs s -> dm_step s t = Some (s', r) -> rng st ns alls nbrs s'.
+Proof.
+  intros st ns alls nbrs s t s' r Hcov Hnb Hr H. assert (Hr0 := Hr).
+  destruct Hr as [HS [HA [HN [HQ [HL [Hnm [Hlc HT]]]]]]]. unfold dm_step in H.
+  destruct (nth_error (dm_tasks s) t) as [k|] eqn:Ek; [|discriminate H].
+  assert (Hk : In k (dm_tasks s)) by (eapply nth_error_In, Ek). destruct (HT k Hk) as [Hme [Hpc Hops]].
+  assert (Hmk : forall qs' subs' k' e d, length qs' = ns -> length subs' = ns -> names_ok ns alls subs' -> (st = true -> lc_ok ns subs') ->
+            tk_rng st ns k' ->
+            rng st ns alls nbrs (mkDM (dm_S s) (dm_alls s) (dm_nbrs s) qs' subs' (set_nth (dm_tasks s) t k') e d)).
+  { intros qs' subs' k' e d H1 H2 H3 H4 H5. repeat (split; [assumption|]). cbn [dm_tasks]. intros k0 Hin.
+    destruct (set_nth_In _ _ _ _ _ Hin) as [->|Hin']; [exact H5|apply HT, Hin']. }
+  assert (Hsame : forall k' e d, tk_rng st ns k' ->
+            rng st ns alls nbrs (mkDM (dm_S s) (dm_alls s) (dm_nbrs s) (dm_qs s) (dm_subs s) (set_nth (dm_tasks s) t k') e d)).
+  { intros. apply Hmk; assumption. }
+  assert (Hset : forall i q' k', map e_shep (q_heap q') = map e_shep (q_heap (getq s i)) ->
+            (st = true -> forall j, q_lc q' = Some j -> (j < ns)%nat) -> tk_rng st ns k' ->
+            rng st ns alls nbrs (upd s (set_nth (dm_subs s) i q') t k')).
+  { intros i q' k' H1 H2 H3. apply Hmk; [exact HQ|rewrite set_nth_length; exact HL| | |exact H3].
+    - intros h Hh. rewrite nth_set_nth. destruct ((i =? h) && _)%nat eqn:E; [|apply Hnm, Hh].
+      apply andb_true_iff in E. destruct E as [E _]. apply Nat.eqb_eq in E. subst h. rewrite H1. apply Hnm, Hh.
+    - intros Hst h j. rewrite nth_set_nth. destruct ((i =? h) && _)%nat; [apply H2, Hst|apply Hlc, Hst]. }
+  assert (Hlcq : forall i, st = true -> forall j, q_lc (getq s i) = Some j -> (j < ns)%nat) by (intros i Hst j; apply Hlc, Hst).
+  assert (Hgo : forall p, pc_rng st ns p -> tk_rng st ns (tk_goto k p)) by (intros p Hp; split; [exact Hme|split; [exact Hp|exact Hops]]).
+  assert (Hfin : forall r0, tk_rng st ns (tk_fin k r0)) by (intros r0; split; [exact Hme|split; [exact I|exact Hops]]).
+  assert (Htry : forall i on_null, try_deq s t k i (fun x => PDeqStRet i x) on_null = Some (s', r) ->
+            pc_rng st ns on_null -> rng st ns alls nbrs s').
+  { intros i on_null Ht H2. unfold try_deq in Ht. destruct (qpop _ _) as [[x qs']|] eqn:Eq; invs Ht.
+    - destruct (qpop_spec _ _ _ _ Eq) as [_ HLq]. destruct (qpop_Some_nth _ _ _ _ Eq) as [Hi _].
+      apply Hmk; try assumption; [lia|]. apply Hgo. cbn [pc_rng]. lia.
+    - apply Hsame. split; [exact Hme|split; [exact H2|exact Hops]]. }
+  assert (Hpush : forall h shep gen c, (h < ns)%nat -> (st = true -> (shep < ns)%nat) -> cont_rng ns c -> pc_rng st ns (enter_push s h shep gen c))
+    by (intros; eapply rng_enter_push; eassumption).
+  destruct (k_pc k) eqn:Epc; cbn [pc_rng] in Hpc.
+  - destruct (k_ops k) as [|o rest] eqn:Eo; invs H. apply Hsame. split; [exact Hme|]. cbn [k_pc k_ops]. split.
+    + destruct o as [v|th v|]; cbn [start pc_rng]; [exact Hme| |exact I]. apply (Hops th v). left; reflexivity.
+    + intros th v Hin. apply (Hops th v). right; exact Hin.
+  - discriminate H.
+  - invs H. apply Hsame, Hgo. exact Hpc.
+  - invs H. apply Hmk; try assumption; [rewrite qpush_length; exact HQ|]. apply Hgo. destruct stat; [exact I|exact Hpc].
+  - invs H. apply Hsame, Hgo. exact Hpc.
+  - destruct (_ <=? _); invs H; apply Hsame, Hgo; [exact Hpc|exact I].
+  - invs H. apply Hset; [reflexivity|apply Hlcq|]. apply Hgo. eapply rng_enq_nbr; eassumption.
+  - invs H. apply Hsame, Hfin.
+  - destruct (q_lock _); invs H. apply Hset; [reflexivity|apply Hlcq|apply Hgo; exact Hpc].
+  - destruct (push_crit _ _ _) as [q'|] eqn:Ep; invs H.
+    + destruct (push_crit_fields _ _ _ _ Ep) as [_ [E2 E3]]. apply Hset; [exact E3|rewrite E2; apply Hlcq|apply Hgo; exact Hpc].
+    + apply Hsame, Hgo. exact I.
+  - invs H. apply Hset; [reflexivity|apply Hlcq|]. apply Hgo. destruct Hpc as [Hh Hc].
+    destruct c as [qi g idx|a b]; cbn [after_push]; [|exact I]. eapply rng_enq_nbr; eassumption.
+  - eapply Htry; [exact H|exact I].
+  - invs H. apply Hset; [reflexivity| |apply Hfin]. cbn [set_lc q_lc]. intros _ j E. inv E. exact Hpc.
+  - invs H. apply Hset; [reflexivity| |apply Hgo; exact I]. intros _ j E. discriminate E.
+  - destruct (q_first _); invs H; apply Hsame, Hgo; [exact I|]. unfold loop_at. destruct (_ <? _)%nat; exact I.
+  - destruct (q_lock _); invs H. apply Hset; [reflexivity|apply Hlcq|apply Hgo; exact I].
+  - destruct (pop_crit_fields (getq s (k_me k))) as [_ [E2 E3]].
+    destruct (pop_crit (getq s (k_me k))) as [q' [[ash gen]|]]; cbn [fst] in E2, E3; invs H;
+      (apply Hset; [exact E3|rewrite E2; apply Hlcq|apply Hgo; exact I]).
+  - invs H. apply Hset; [reflexivity|apply Hlcq|apply Hgo]. unfold loop_at. destruct (_ <? _)%nat; exact I.
+  - invs H. apply Hset; [reflexivity|apply Hlcq|apply Hgo; exact I].
+  - destruct (q_lc _) as [l|] eqn:El; [destruct (l =? ash)%nat|]; invs H; apply Hsame, Hgo; try exact I.
+    apply Hpush; [exact Hme|intros Hst; eapply Hlcq; [exact Hst|exact El]|exact I].
+  - destruct (_ <? _); invs H; apply Hsame, Hgo; exact I.
+  - invs H. apply Hset; [destruct (_ =? _); reflexivity|destruct (_ =? _); apply Hlcq|apply Hgo; destruct (_ <? _); exact I].
+  - eapply Htry; [exact H|exact I].
+  - invs H. apply Hset; [| |apply Hgo; exact I].
+    + destruct (q_lc _) as [l|]; [destruct (l =? lc)%nat|]; reflexivity.
+    + intros Hst. destruct (q_lc (getq s ash)) as [l|] eqn:El; [destruct (l =? lc)%nat|]; cbn [set_lc q_lc]; intros j E;
+        try discriminate E; try (eapply (Hlcq ash Hst); rewrite El; exact E); eapply (Hlcq _ Hst); exact E.
+  - invs H. apply Hsame, Hgo. exact I.
+  - eapply Htry; [exact H|]. destruct lc as [l|]; [destruct (l =? _)%nat|]; exact I.
+  - eapply Htry; [exact H|exact I].
+  - destruct (q_first _); invs H; apply Hsame, Hgo; [exact I|]. unfold loop_at. destruct (_ <? _)%nat; exact I.
+  - invs H. apply Hsame, Hfin.
+Qed.
+
+Lemma nth_map_seq : forall (A : Type) (f : nat -> A) n m d, (m < n)%nat -> nth m (map f (seq 0 n)) d = f m.
+Proof.
+  intros A f n m d H. rewrite nth_indep with (d' := f O) by (rewrite map_length, seq_length; exact H).
+  rewrite map_nth, seq_nth by exact H. reflexivity.
+Qed.
+
+Lemma rng_init : forall st ns alls nbrs hn progs,
+  progs_ok ns progs -> (st = true -> hints_lc_ok ns hn) -> rng st ns alls nbrs (dm_init ns alls nbrs hn progs).
+Proof.
+  intros st ns alls nbrs hn progs Hok Hlc. unfold rng, dm_init; cbn [dm_S dm_alls dm_nbrs dm_qs dm_subs dm_tasks].
+  split; [reflexivity|]. split; [reflexivity|]. split; [reflexivity|]. split; [apply repeat_length|].
+  split; [rewrite map_length, seq_length; reflexivity|]. split; [|split].
+  - intros h Hh. rewrite nth_map_seq by exact Hh. unfold init_sub. cbn [q_heap]. rewrite map_map. apply map_ext.
+    intros k. reflexivity.
+  - intros Hst h j E. specialize (Hlc Hst). destruct (Nat.lt_ge_cases h ns) as [L|L].
+    + rewrite nth_map_seq in E by exact L. unfold init_sub in E. cbn [q_lc] in E.
+      destruct (Nat.lt_ge_cases h (length hn)) as [L2|L2].
+      * eapply Hlc; [apply nth_In, L2|exact E].
+      * rewrite nth_overflow in E by exact L2. discriminate E.
+    + rewrite nth_overflow in E by (rewrite map_length, seq_length; exact L). discriminate E.
+  - intros k Hk. apply in_map_iff in Hk. destruct Hk as [[me p] [<- Hp]]. destruct (Hok me p Hp) as [Hme Hth].
+    split; [exact Hme|]. split; [exact I|]. exact Hth.
+Qed.
+
+Lemma hints_create_lc_ok : forall ns, hints_lc_ok ns (hints_create ns).
+Proof. intros ns sh j Hin E. apply repeat_spec in Hin. subst sh. discriminate E. Qed.
+
+(* the assert(heap->heap[i].ad.shep == shep) of qdqueue_adheap_push never fails: every shepherd a push is asked to
+   advertise is named by an element of the target heap.  Needs: the initial last_consumed values are shepherds
+   (qdqueue_create: all NULL), every neighbors[] entry is a shepherd, allsheps[h] names every other shepherd. *)
+Theorem dqm_push_assert_holds : forall ns alls nbrs hn progs sched k,
+  progs_ok ns progs -> alls_cover ns alls -> nbrs_ok ns nbrs -> hints_lc_ok ns hn ->
+  In k (dm_tasks (dm_run (dm_init ns alls nbrs hn progs) sched)) -> k_pc k <> PCrash 0.
+Proof.
+  intros ns alls nbrs hn progs sched k Hok Hcov Hnb Hlc Hk E.
+  assert (Hr : rng true ns alls nbrs (dm_run (dm_init ns alls nbrs hn progs) sched)).
+  { apply (dm_run_invariant (rng true ns alls nbrs)); [intros s0 t0 s1 r0 Hr0 Hs0; eapply rng_step; [intros _; exact Hcov|exact Hnb|exact Hr0|exact Hs0]|apply rng_init; auto]. }
+  destruct Hr as [_ [_ [_ [_ [_ [_ [_ HT]]]]]]]. destruct (HT k Hk) as [_ [Hp _]]. rewrite E in Hp. discriminate Hp.
+Qed.
+
+(* from qdqueue_create's state no task ever crashes: neither the assert nor the backwards scan of push goes wrong *)
+Theorem dqm_no_crash : forall ns alls nbrs progs sched k w,
+  progs_ok ns progs -> alls_cover ns alls -> nbrs_ok ns nbrs ->
+  In k (dm_tasks (dm_run (dm_init ns alls nbrs (hints_create ns) progs) sched)) -> k_pc k <> PCrash w.
+Proof.
+  intros ns alls nbrs progs sched k w Hok Hcov Hnb Hk. destruct w as [|w].
+  - eapply dqm_push_assert_holds; try eassumption. apply hints_create_lc_ok.
+  - eapply dqm_push_scan_in_bounds. exact Hk.
+Qed.
+
+Lemma dm_cfg_ok_nbrs_ok : forall ns alls nbrs, dm_cfg_ok ns alls nbrs = true -> length nbrs = ns -> nbrs_ok ns nbrs.
+Proof.
+  intros ns alls nbrs H HL i nb Hin. destruct (Nat.lt_ge_cases i ns) as [L|L].
+  - unfold dm_cfg_ok in H. rewrite forallb_forall in H. specialize (H i ltac:(apply in_seq; lia)).
+    rewrite !andb_true_iff in H. destruct H as [_ Hn]. rewrite forallb_forall in Hn. specialize (Hn nb Hin).
+    apply Nat.ltb_lt in Hn. exact Hn.
+  - rewrite nth_overflow in Hin by lia. destruct Hin.
+Qed.
+
+(* ------------------------------------------------------------------------------------------------------ *)
+(* 7  mutual exclusion of the gateway locks                                                                *)
+
+(* the heap whose gateway lock a task standing at this pc holds (between qthread_lock and qthread_unlock) *)
+Definition hold_pc (me : nat) (p : pc) : option nat :=
+  match p with
+  | PPushCrit h _ _ _ | PPushUnlock h _ => Some h
+  | PPopCrit | PPopUnlockEmpty | PPopUnlock _ _ => Some me
+  | _ => None
+  end.
+Definition holds (k : dtask) : option nat := hold_pc (k_me k) (k_pc k).
+Definition in_crit (s : dstate) (t h : nat) : Prop := holds (task_of s t) = Some h.
+Definition lk (s : dstate) (h : nat) : option nat := q_lock (getq s h).
+
+Definition linv (s : dstate) : Prop :=
+  (forall h t, in_crit s t h -> lk s h = Some t) /\
+  (forall h t, lk s h = Some t -> in_crit s t h \/ k_pc (task_of s t) = PCrash 1).
+
+Lemma task_of_upd : forall s s' u k k' t,
+  nth_error (dm_tasks s) u = Some k -> dm_tasks s' = set_nth (dm_tasks s) u k' ->
+  task_of s' t = if (t =? u)%nat then k' else task_of s t.
+Proof.
+  intros s s' u k k' t Ek Et. unfold task_of. rewrite Et. destruct (Nat.eqb_spec t u) as [->|Hne].
+  - rewrite (nth_error_set_nth_same _ _ _ _ _ Ek). reflexivity.
+  - rewrite nth_error_set_nth_other by exact Hne. reflexivity.
+Qed.
+
+Lemma linv_upd : forall s s' u k k',
+  linv s -> nth_error (dm_tasks s) u = Some k -> dm_tasks s' = set_nth (dm_tasks s) u k' -> k_pc k <> PCrash 1 ->
+  ( ((forall h, lk s' h = lk s h) /\ (holds k' = holds k \/ (holds k' = None /\ k_pc k' = PCrash 1))) \/
+    (exists h0, holds k = None /\ holds k' = Some h0 /\ lk s h0 = None /\
+                forall h, lk s' h = if (h =? h0)%nat then Some u else lk s h) \/
+    (exists h0, holds k = Some h0 /\ holds k' = None /\
+                forall h, lk s' h = if (h =? h0)%nat then None else lk s h) ) ->
+  linv s'.
+Proof.
+  intros s s' u k k' [L1 L2] Ek Et Hnc Hcase. unfold linv, in_crit in *.
+  assert (Htk := fun t => task_of_upd s s' u k k' t Ek Et).
+  assert (Hku : task_of s u = k) by (unfold task_of; rewrite Ek; reflexivity).
+  destruct Hcase as [[Hlk Hh]|[[h0 [Hk [Hk' [Hfree Hlk]]]]|[h0 [Hk [Hk' Hlk]]]]]; split; intros h t.
+  - intros Hin. rewrite Hlk. rewrite Htk in Hin. destruct (Nat.eqb_spec t u) as [E|Hne]; [subst t|apply L1, Hin].
+    destruct Hh as [Hh|[Hh _]]; rewrite Hh in Hin; [|discriminate Hin]. apply L1. rewrite Hku. exact Hin.
+  - intros Hl. rewrite Hlk in Hl. rewrite Htk. destruct (Nat.eqb_spec t u) as [E|Hne]; [subst t|apply L2, Hl].
+    destruct (L2 _ _ Hl) as [H1|H1]; rewrite Hku in H1; [|contradiction].
+    destruct Hh as [Hh|[_ Hh]]; [left; rewrite Hh; exact H1|right; exact Hh].
+  - intros Hin. rewrite Hlk. rewrite Htk in Hin. destruct (Nat.eqb_spec t u) as [E|Hne]; [subst t|].
+    + rewrite Hk' in Hin. inv Hin. rewrite Nat.eqb_refl. reflexivity.
+    + destruct (Nat.eqb_spec h h0) as [E2|Hne2]; [subst h|apply L1, Hin]. apply L1 in Hin. rewrite Hfree in Hin. discriminate Hin.
+  - intros Hl. rewrite Hlk in Hl. rewrite Htk. destruct (Nat.eqb_spec h h0) as [E2|Hne2]; [subst h|].
+    + inv Hl. rewrite Nat.eqb_refl. left. exact Hk'.
+    + destruct (Nat.eqb_spec t u) as [E|Hne]; [subst t|apply L2, Hl].
+      destruct (L2 _ _ Hl) as [H1|H1]; rewrite Hku in H1; [|contradiction]. rewrite Hk in H1. discriminate H1.
+  - intros Hin. rewrite Hlk. rewrite Htk in Hin. destruct (Nat.eqb_spec t u) as [E|Hne]; [subst t; rewrite Hk' in Hin; discriminate Hin|].
+    destruct (Nat.eqb_spec h h0) as [E2|Hne2]; [subst h|apply L1, Hin]. exfalso.
+    assert (A1 := L1 _ _ Hin). assert (A2 := L1 h0 u). rewrite Hku in A2. specialize (A2 Hk). rewrite A1 in A2. inv A2.
+    apply Hne. reflexivity.
+  - intros Hl. rewrite Hlk in Hl. destruct (Nat.eqb_spec h h0) as [E2|Hne2]; [subst h; discriminate Hl|]. rewrite Htk.
+    destruct (Nat.eqb_spec t u) as [E|Hne]; [subst t|apply L2, Hl].
+    destruct (L2 _ _ Hl) as [H1|H1]; rewrite Hku in H1; [|contradiction]. rewrite Hk in H1. inv H1. contradiction.
+Qed.
+
+Lemma lk_set_same : forall subs i q', q_lock q' = q_lock (nth i subs dflt_sub) ->
+  forall h, q_lock (nth h (set_nth subs i q') dflt_sub) = q_lock (nth h subs dflt_sub).
+Proof.
+  intros subs i q' E h. rewrite nth_set_nth. destruct ((i =? h) && _)%nat eqn:C; [|reflexivity].
+  apply andb_true_iff in C. destruct C as [C _]. apply Nat.eqb_eq in C. subst h. exact E.
+Qed.
+
+Lemma lk_set_new : forall subs i q', (i < length subs)%nat ->
+  forall h, q_lock (nth h (set_nth subs i q') dflt_sub) = if (h =? i)%nat then q_lock q' else q_lock (nth h subs dflt_sub).
+Proof.
+  intros subs i q' L h. rewrite nth_set_nth. apply Nat.ltb_lt in L. rewrite L, andb_true_r, (Nat.eqb_sym i h).
+  destruct (h =? i)%nat; reflexivity.
+Qed.
+
+Lemma hold_enter_push : forall me s h shep gen c, hold_pc me (enter_push s h shep gen c) = None.
+Proof. intros. unfold enter_push. destruct (find_shep _ _ _); reflexivity. Qed.
+Lemma hold_enq_nbr : forall me s qi gen idx, hold_pc me (enq_nbr s qi gen idx) = None.
+Proof. intros. unfold enq_nbr. destruct (nth_error _ _); [apply hold_enter_push|reflexivity]. Qed.
+Lemma hold_after_push : forall me s c, hold_pc me (after_push s c) = None.
+Proof. intros me s [qi g idx|a b]; cbn [after_push]; [apply hold_enq_nbr|reflexivity]. Qed.
+Lemma hold_loop_at : forall me s idx, hold_pc me (loop_at s idx) = None.
+Proof. intros. unfold loop_at. destruct (_ <? _)%nat; reflexivity. Qed.
+
+Lemma linv_step : forall st ns alls nbrs s t s' r,
+  rng st ns alls nbrs s -> linv s -> dm_step s t = Some (s', r) -> linv s'.
+Proof.
+  intros st ns alls nbrs s t s' r Hr HL H. destruct Hr as [_ [_ [_ [_ [HLen [_ [_ HT]]]]]]]. unfold dm_step in H.
+  destruct (nth_error (dm_tasks s) t) as [k|] eqn:Ek; [|discriminate H].
+  assert (Hk : In k (dm_tasks s)) by (eapply nth_error_In, Ek). destruct (HT k Hk) as [Hme [Hpc _]].
+  (* A: no lock word changes, the task holds what it held *)
+  assert (HA : forall qs' subs' k' e d, (forall h, q_lock (nth h subs' dflt_sub) = lk s h) -> k_pc k <> PCrash 1 ->
+            (holds k' = holds k \/ (holds k' = None /\ k_pc k' = PCrash 1)) ->
+            linv (mkDM (dm_S s) (dm_alls s) (dm_nbrs s) qs' subs' (set_nth (dm_tasks s) t k') e d)).
+  { intros qs' subs' k' e d H1 Hnc H2. eapply (linv_upd s _ t k k' HL Ek); [reflexivity|exact Hnc|]. left. split; [exact H1|exact H2]. }
+  assert (HAgo : forall qs' e d p, k_pc k <> PCrash 1 -> hold_pc (k_me k) p = hold_pc (k_me k) (k_pc k) ->
+            linv (mkDM (dm_S s) (dm_alls s) (dm_nbrs s) qs' (dm_subs s) (set_nth (dm_tasks s) t (tk_goto k p)) e d)).
+  { intros. apply HA; [reflexivity|assumption|left; assumption]. }
+  assert (HAset : forall i q' k', q_lock q' = q_lock (getq s i) -> k_pc k <> PCrash 1 ->
+            (holds k' = holds k \/ (holds k' = None /\ k_pc k' = PCrash 1)) ->
+            linv (upd s (set_nth (dm_subs s) i q') t k')).
+  { intros i q' k' H1 Hnc H2. apply HA; [apply lk_set_same, H1|exact Hnc|exact H2]. }
+  assert (Htry : forall i on_some on_null, try_deq s t k i on_some on_null = Some (s', r) -> k_pc k <> PCrash 1 ->
+            hold_pc (k_me k) (k_pc k) = None -> (forall x, hold_pc (k_me k) (on_some x) = None) ->
+            hold_pc (k_me k) on_null = None -> linv s').
+  { intros i on_some on_null Ht Hnc H0 H1 H2. unfold try_deq in Ht. destruct (qpop _ _) as [[x qs']|]; invs Ht.
+    - apply HAgo; [exact Hnc|rewrite H0; apply H1].
+    - apply HA; [reflexivity|exact Hnc|left]. unfold holds. cbn [tk_see k_me k_pc]. rewrite H0. exact H2. }
+  (* B: acquire *)
+  assert (HB : forall h0 p, (h0 < ns)%nat -> lk s h0 = None -> k_pc k <> PCrash 1 -> hold_pc (k_me k) (k_pc k) = None ->
+            hold_pc (k_me k) p = Some h0 ->
+            linv (upd s (set_nth (dm_subs s) h0 (set_lock (getq s h0) (Some t))) t (tk_goto k p))).
+  { intros h0 p Hh Hfree Hnc H0 H1. eapply (linv_upd s _ t k _ HL Ek); [reflexivity|exact Hnc|]. right; left. exists h0.
+    split; [exact H0|]. split; [exact H1|]. split; [exact Hfree|]. intros h. unfold lk at 1, getq. cbn [upd dm_subs].
+    rewrite lk_set_new by lia. reflexivity. }
+  (* C: release *)
+  assert (HC : forall h0 p, (h0 < ns)%nat -> k_pc k <> PCrash 1 -> hold_pc (k_me k) (k_pc k) = Some h0 ->
+            hold_pc (k_me k) p = None ->
+            linv (upd s (set_nth (dm_subs s) h0 (set_lock (getq s h0) None)) t (tk_goto k p))).
+  { intros h0 p Hh Hnc H0 H1. eapply (linv_upd s _ t k _ HL Ek); [reflexivity|exact Hnc|]. right; right. exists h0.
+    split; [exact H0|]. split; [exact H1|]. intros h. unfold lk at 1, getq. cbn [upd dm_subs].
+    rewrite lk_set_new by lia. reflexivity. }
+  destruct (k_pc k) eqn:Epc; cbn [pc_rng] in Hpc.
+  - destruct (k_ops k) as [|o rest]; invs H. apply HA; [reflexivity|discriminate|left]. unfold holds. cbn [k_me k_pc].
+    rewrite ?Epc. destruct o; reflexivity.
+  - discriminate H.
+  - invs H. apply HAgo; [discriminate|rewrite ?Epc; reflexivity].
+  - invs H. apply HAgo; [discriminate|rewrite ?Epc; destruct stat; reflexivity].
+  - invs H. apply HAgo; [discriminate|rewrite ?Epc; reflexivity].
+  - destruct (_ <=? _); invs H; apply HAgo; try discriminate; rewrite ?Epc; reflexivity.
+  - invs H. apply HAset; [reflexivity|discriminate|left]. unfold holds. cbn [tk_goto k_me k_pc]. rewrite ?Epc. apply hold_enq_nbr.
+  - invs H. apply HA; [reflexivity|discriminate|left]. unfold holds. cbn [tk_fin k_me k_pc]. rewrite ?Epc. reflexivity.
+  - (* PPushLock *) destruct (q_lock (getq s h)) eqn:El; invs H. apply HB; [apply Hpc|exact El|discriminate|rewrite ?Epc; reflexivity|reflexivity].
+  - (* PPushCrit *) destruct (push_crit _ _ _) as [q'|] eqn:Ep; invs H.
+    + destruct (push_crit_fields _ _ _ _ Ep) as [E1 _]. apply HAset; [exact E1|discriminate|left]. unfold holds. cbn [tk_goto k_me k_pc].
+      rewrite ?Epc. reflexivity.
+    + apply HA; [reflexivity|discriminate|right]. split; reflexivity.
+  - (* PPushUnlock *) invs H. apply HC; [apply Hpc|discriminate|rewrite ?Epc; reflexivity|apply hold_after_push].
+  - eapply Htry; [exact H|discriminate|rewrite ?Epc; reflexivity|reflexivity|reflexivity].
+  - invs H. apply HAset; [reflexivity|discriminate|left]. unfold holds. cbn [tk_fin k_me k_pc]. rewrite ?Epc. reflexivity.
+  - invs H. apply HAset; [reflexivity|discriminate|left]. unfold holds. cbn [tk_goto k_me k_pc]. rewrite ?Epc. reflexivity.
+  - destruct (q_first _); invs H; apply HAgo; try discriminate; rewrite ?Epc; [reflexivity|apply hold_loop_at].
+  - (* PPopLock *) destruct (q_lock (getq s (k_me k))) eqn:El; invs H.
+    apply HB; [exact Hme|exact El|discriminate|rewrite ?Epc; reflexivity|reflexivity].
+  - (* PPopCrit *) destruct (pop_crit_fields (getq s (k_me k))) as [E1 _].
+    destruct (pop_crit (getq s (k_me k))) as [q' [[ash gen]|]]; cbn [fst] in E1; invs H;
+      (apply HAset; [exact E1|discriminate|left]; unfold holds; cbn [tk_goto k_me k_pc]; rewrite ?Epc; reflexivity).
+  - invs H. apply HC; [exact Hme|discriminate|rewrite ?Epc; reflexivity|apply hold_loop_at].
+  - invs H. apply HC; [exact Hme|discriminate|rewrite ?Epc; reflexivity|reflexivity].
+  - destruct (q_lc _) as [l|]; [destruct (l =? ash)%nat|]; invs H; apply HAgo; try discriminate; rewrite ?Epc; try reflexivity.
+    apply hold_enter_push.
+  - destruct (_ <? _); invs H; apply HAgo; try discriminate; rewrite ?Epc; reflexivity.
+  - invs H. apply HAset; [destruct (_ =? _); reflexivity|discriminate|left]. unfold holds. cbn [tk_goto k_me k_pc]. rewrite ?Epc.
+    destruct (_ <? _); reflexivity.
+  - eapply Htry; [exact H|discriminate|rewrite ?Epc; reflexivity|reflexivity|reflexivity].
+  - invs H. apply HAset; [|discriminate|left; unfold holds; cbn [tk_goto k_me k_pc]; rewrite ?Epc; reflexivity].
+    destruct (q_lc _) as [l|]; [destruct (l =? lc)%nat|]; reflexivity.
+  - invs H. apply HAgo; [discriminate|rewrite ?Epc; reflexivity].
+  - eapply Htry; [exact H|discriminate|rewrite ?Epc; reflexivity|reflexivity|].
+    destruct lc as [l|]; [destruct (l =? _)%nat|]; reflexivity.
+  - eapply Htry; [exact H|discriminate|rewrite ?Epc; reflexivity|reflexivity|reflexivity].
+  - destruct (q_first _); invs H; apply HAgo; try discriminate; rewrite ?Epc; [reflexivity|apply hold_loop_at].
+  - invs H. apply HA; [reflexivity|discriminate|left]. unfold holds. cbn [tk_fin k_me k_pc]. rewrite ?Epc. reflexivity.
+Qed.
+
+Lemma linv_init : forall ns alls nbrs hn progs, linv (dm_init ns alls nbrs hn progs).
+Proof.
+  intros ns alls nbrs hn progs. split; intros h t.
+  - unfold in_crit, holds. rewrite (proj1 (task_of_init ns alls nbrs hn progs t)). intros E; discriminate E.
+  - unfold lk, getq, dm_init; cbn [dm_subs]. destruct (Nat.lt_ge_cases h ns) as [L|L].
+    + rewrite nth_map_seq by exact L. intros E; discriminate E.
+    + rewrite nth_overflow by (rewrite map_length, seq_length; exact L). intros E; discriminate E.
+Qed.
+
+Lemma reach_rng_linv : forall ns alls nbrs hn progs sched,
+  progs_ok ns progs -> nbrs_ok ns nbrs ->
+  let s := dm_run (dm_init ns alls nbrs hn progs) sched in rng false ns alls nbrs s /\ linv s.
+Proof.
+  intros ns alls nbrs hn progs sched Hok Hnb s.
+  apply (dm_run_invariant (fun s => rng false ns alls nbrs s /\ linv s)).
+  - intros s0 t0 s1 r0 [Hr0 Hl0] Hs0. split.
+    + eapply rng_step; [intros E; discriminate E|exact Hnb|exact Hr0|exact Hs0].
+    + eapply linv_step; eassumption.
+  - split; [apply rng_init; [exact Hok|intros E; discriminate E]|apply linv_init].
+Qed.
+
+(* Mutual exclusion of every advertisement heap's gateway lock, for ARBITRARY initial hints (locks start free).
+   in_crit s t h: task t stands between qthread_lock and qthread_unlock on heap h (PPushCrit h / PPushUnlock h, or
+   PPopCrit / PPopUnlockEmpty / PPopUnlock with h = its own shepherd). *)
+Theorem dqm_gateway_mutex : forall ns alls nbrs hn progs sched,
+  progs_ok ns progs -> nbrs_ok ns nbrs ->
+  let s := dm_run (dm_init ns alls nbrs hn progs) sched in
+  (forall h t, in_crit s t h -> q_lock (getq s h) = Some t) /\
+  (forall h t, q_lock (getq s h) = Some t -> in_crit s t h \/ k_pc (task_of s t) = PCrash 1) /\
+  (forall h t1 t2, in_crit s t1 h -> in_crit s t2 h -> t1 = t2) /\      (* at most ONE task inside heap h's critical section *)
+  (forall t h1 h2, in_crit s t h1 -> in_crit s t h2 -> h1 = h2) /\       (* a task never holds two locks *)
+  (forall t h, in_crit s t h -> (h < ns)%nat).
+Proof.
+  intros ns alls nbrs hn progs sched Hok Hnb s.
+  destruct (reach_rng_linv ns alls nbrs hn progs sched Hok Hnb) as [Hr [L1 L2]]. fold s in Hr, L1, L2.
+  split; [exact L1|]. split; [exact L2|]. split; [|split].
+  - intros h t1 t2 H1 H2. apply L1 in H1. apply L1 in H2. unfold lk in *. rewrite H1 in H2. inv H2. reflexivity.
+  - intros t h1 h2 H1 H2. unfold in_crit in *. rewrite H1 in H2. inv H2. reflexivity.
+  - intros t h Hin. unfold in_crit, holds, task_of in Hin. destruct Hr as [_ [_ [_ [_ [_ [_ [_ HT]]]]]]].
+    destruct (nth_error (dm_tasks s) t) as [k|] eqn:Ek; [|discriminate Hin].
+    destruct (HT k (nth_error_In _ _ Ek)) as [Hme [Hpc _]].
+    destruct (k_pc k); try discriminate Hin; cbn [hold_pc pc_rng] in *; inv Hin; try exact Hme; apply Hpc.
+Qed.
+
+(* the critical-section steps are only ever executed by the holder of the lock *)
+Theorem dqm_crit_step_by_holder : forall ns alls nbrs hn progs sched t,
+  progs_ok ns progs -> nbrs_ok ns nbrs ->
+  let s := dm_run (dm_init ns alls nbrs hn progs) sched in
+  (forall h i g c, k_pc (task_of s t) = PPushCrit h i g c -> q_lock (getq s h) = Some t) /\
+  (k_pc (task_of s t) = PPopCrit -> q_lock (getq s (k_me (task_of s t))) = Some t).
+Proof.
+  intros ns alls nbrs hn progs sched t Hok Hnb s.
+  destruct (dqm_gateway_mutex ns alls nbrs hn progs sched Hok Hnb) as [L1 _]. fold s in L1. split.
+  - intros h i g c E. apply L1. unfold in_crit, holds. rewrite E. reflexivity.
+  - intros E. apply L1. unfold in_crit, holds. rewrite E. reflexivity.
+Qed.
+
+(* from qdqueue_create's state (no task can be stuck in a critical section) the lock word says exactly who is inside *)
+Theorem dqm_gateway_mutex_create : forall ns alls nbrs progs sched h t,
+  progs_ok ns progs -> nbrs_ok ns nbrs ->
+  let s := dm_run (dm_init ns alls nbrs (hints_create ns) progs) sched in
+  q_lock (getq s h) = Some t <-> in_crit s t h.
+Proof.
+  intros ns alls nbrs progs sched h t Hok Hnb s.
+  destruct (dqm_gateway_mutex ns alls nbrs (hints_create ns) progs sched Hok Hnb) as [L1 [L2 _]]. fold s in L1, L2.
+  split; [|apply L1]. intros Hl. destruct (L2 _ _ Hl) as [Hin|Hc]; [exact Hin|]. exfalso.
+  unfold task_of in Hc. destruct (nth_error (dm_tasks s) t) as [k|] eqn:Ek; [|discriminate Hc].
+  exact (dqm_push_scan_in_bounds ns alls nbrs progs sched k (nth_error_In _ _ Ek) O Hc).
+Qed.
+
+(* non-vacuity: task 0 is inside the critical section of heap 1, task 1 wants the same lock and cannot move *)
+Example ex_mutex_blocks :
+  let s := dm_run ex_st1 (firstn 14 ex_sch1 ++ [0; 0; 1])%nat in
+  dm_pc_of s 0 = PPushCrit 1 1 1 (KEnqNbr 0 1 0) /\ dm_pc_of s 1 = PPushLock 1 1 2 (KEnqNbr 0 2 0) /\
+  in_crit s 0 1 /\ dm_lock_holder s 1 = Some 0%nat /\ dm_step s 1 = None /\
+  dm_lock_holder (dm_run s [0; 0; 1])%nat 1 = Some 1%nat.
+Proof. vm_compute. repeat split. Qed.
+
+Example ex_nbrs_ok : nbrs_ok 2 ex_a2 /\ nbrs_ok 3 ex_a3.
+Proof. split; (eapply dm_cfg_ok_nbrs_ok; [apply ex_cfg_ok|reflexivity]). Qed.
+
+(* non-vacuity of [PCrash 0]: with an initial last_consumed that is NOT a shepherd (&Qs[5] with 2 shepherds) the
+   dequeue on shepherd 1 pops the ad for shepherd 0, reads lc = &Qs[5] and asks qdqueue_adheap_push for an element
+   that does not exist.  qdqueue_create never produces such a state (hints_lc_ok excludes exactly this). *)
+Definition ex_bad_lc : hints := [mkSH (Some 5%nat) 1 1 None (repeat ehint_create 2); shint_create 2].
+
+Example ex_assert_fails_with_bad_lc_hint :
+  let s := dm_run (dm_init 2 ex_a2 ex_a2 ex_bad_lc [(0, [DEnq 5; DEnq 6]); (1, [DDeq])]%nat) (repeat 0 14 ++ repeat 1 8)%nat in
+  dm_pc_of s 1 = PCrash 0 /\ dm_crashed s = true /\ dm_qs s = [[5; 6]; []] /\ d_deq s = [].
+Proof. vm_compute. repeat split. Qed.
+
+Example ex_no_crash : forall sched k w,
+  In k (dm_tasks (dm_run ex_st1 sched)) -> k_pc k <> PCrash w.
+Proof. intros sched k w. apply dqm_no_crash; [apply ex_progs_ok|apply ex_alls_cover|apply ex_nbrs_ok]. Qed.
